@@ -14,3 +14,5 @@ def run(ctx):
     ctx.add_model(res)
     stages.chan_family(ctx, ["C19."], lambda s: s["op"] in ("NewVoucher", "NewVoucherResult") or len(s["pre"]["results"]) == 0,
                        cells_cfg_quick="fsmtab-c19.cfg")
+    # manager level: the same property on a real manager (messages, API calls, transport callbacks)
+    stages.mgr_family(ctx, ["C19."], ["all"], lambda s: s["stim"]["kind"] in ("SendVoucher", "SendVoucherResult", "UpdateValidation") or s["stim"]["msg"]["v"] != "", quick_n=3000, model=not ctx.quick(), sims=False, invariants=["M_C19_Append"])
